@@ -93,6 +93,14 @@ def run_job(job):
     res = Res()
     if "zone" in job:
         return zone_job(job, res)
+    from mc.world import Clock, set_zone
+
+    set_zone("UTC")
+    with Clock(1_700_000_000.0 + 86400.0 * (job["lo"] // 30 % 3) * 8):  # pinned: 14, 22, 30 November 2023 (a month's last day too)
+        return _all_pairs(job, res, calc_duration)
+
+
+def _all_pairs(job, res, calc_duration):
     for s in range(job["lo"], job["hi"]):
         hs = hm(s)
         for e in range(1440):
